@@ -35,6 +35,9 @@ type FeatureSpec struct {
 	// their own, one sub-location): a tree no file parser produces but a poly.Location value can hold; its
 	// feature sequence is that of the inner tree.
 	Wrap int
+	// ZeroSpan (non-zero): the location is a leaf whose range is 0..0 - the zero value of both coordinates - while its
+	// flags are not: bit 0 complement, bit 1 5' partial, bit 2 3' partial, bit 3 none of them
+	ZeroSpan int
 }
 
 type Case struct {
@@ -70,6 +73,9 @@ func build(c Case) poly.Sequence {
 	for _, f := range c.Features {
 		ft := poly.Feature{Name: f.Name, Source: f.Source, Type: f.Type, Score: f.Score, Strand: f.Strand, Phase: f.Phase, GbkLocationString: f.GbkLocationString,
 			Sequence: f.Sequence, SequenceHash: f.SequenceHash, Description: f.Description, SequenceHashFunction: f.SequenceHashFunction, SequenceLocation: f.Loc.Structure()}
+		if f.ZeroSpan != 0 {
+			ft.SequenceLocation = poly.Location{Complement: f.ZeroSpan&1 != 0, FivePrimePartial: f.ZeroSpan&2 != 0, ThreePrimePartial: f.ZeroSpan&4 != 0}
+		}
 		if f.EmptySubs {
 			ft.SequenceLocation = emptyLeaves(ft.SequenceLocation)
 		}
@@ -446,6 +452,9 @@ func genValue(t *rapid.T) Case {
 		f.AttributesNil = len(f.Attributes) == 0 && rapid.Bool().Draw(t, fn+"_attr_nil")
 		f.Loc = insdc.Draw(t, fn+"_loc", n, rapid.IntRange(0, 4).Draw(t, fn+"_loc_depth"))
 		f.EmptySubs = rapid.IntRange(0, 3).Draw(t, fn+"_empty_sublocations") == 0
+		if rapid.IntRange(0, 7).Draw(t, fn+"_zero_span") == 0 {
+			f.ZeroSpan = rapid.IntRange(1, 8).Draw(t, fn+"_zero_span_flags")
+		}
 		if rapid.IntRange(0, 5).Draw(t, fn+"_wrapped") == 0 {
 			f.Wrap = rapid.IntRange(1, 2).Draw(t, fn+"_wrap_levels")
 		}
